@@ -259,7 +259,7 @@ def absflags(a):
     return [int(x) for x in np.asarray(a).ravel().tolist()]
 
 
-def run_frontend(frontend, table, config, workdir, form="iso", max_orders=3, rng=None):
+def run_frontend(frontend, table, config, workdir, form="iso", max_orders=3, rng=None, fixed_orders=None):
     """-> list of events (dicts without id/rid) for one real run"""
     install()
     ev = [{"ev": "load", "table": table, "config": config, "frontend": frontend}]
@@ -332,6 +332,10 @@ def run_frontend(frontend, table, config, workdir, form="iso", max_orders=3, rng
             orders.append(p)
     if n >= 2:
         orders.append(orders[-1][: n - 1])
+    if fixed_orders is not None:
+        # arrival orders chosen by TLC (behaviours of the model); indices refer to the spec's yield order, which is
+        # the order of the real yields whenever the per-key matching is the identity (checked by the trace spec)
+        orders = [od for od in fixed_orders if all(1 <= i <= n for i in od)]
     first = True
     from ioos_qc.results import ContextResult
 
